@@ -305,6 +305,10 @@ func (r *Resolver) Resolve(ctx context.Context, name string) (ResolveResult, err
 			}
 		}
 	}
+	// An IPv6 literal without a port, e.g. from https://[2001:db8::1]/
+	if l := len(name); l > 2 && name[0] == '[' && name[l-1] == ']' {
+		name = name[1 : l-1]
+	}
 	if name == "localhost" {
 		result.Address = []net.IP{
 			net.IP{127, 0, 0, 1},
